@@ -166,6 +166,7 @@ type c18Call struct {
 	fresh    bool
 	ex       bool // DoEx
 	own      *c18Exec
+	src      *c18Exec // the execution that produced this call's result
 }
 
 func c18SingleFlight(r *zsim.Run) {
@@ -219,8 +220,7 @@ func c18SingleFlight(r *zsim.Run) {
 	if !ok || r.Failed() {
 		return
 	}
-	for _, c := range calls {
-		// the result must come from one execution that overlaps the call
+	resolve := func(c *c18Call) *c18Exec {
 		var src *c18Exec
 		for _, e := range execs {
 			want := any(e.val)
@@ -236,9 +236,24 @@ func c18SingleFlight(r *zsim.Run) {
 				src = e
 			}
 		}
+		return src
+	}
+	for _, c := range calls {
+		c.src = resolve(c)
+	}
+	for _, c := range calls {
+		// the result must come from one execution that overlaps the call
+		src := c.src
 		if src == nil {
 			r.Failf("singleflight-foreign-result", "call Do(%s) returned (%v,%v), which no execution of that key produced", c.key, c.val, c.err)
 			return
+		}
+		// once any call served by an execution has returned, a call invoked later must not be served by it
+		for _, d := range calls {
+			if d != c && d.key == c.key && d.src == src && d.ret != 0 && d.ret < c.inv {
+				r.Failf("singleflight-stale-result", "call Do(%s) invoked at seq %d was served by an execution whose result an earlier call had already returned at seq %d: a later call must execute afresh", c.key, c.inv, d.ret)
+				return
+			}
 		}
 		if src.owner.ret < c.inv {
 			r.Failf("singleflight-stale-result", "call Do(%s) invoked at seq %d was served by the execution of a call that had already returned at seq %d: a later call must execute afresh", c.key, c.inv, src.owner.ret)
